@@ -29,8 +29,10 @@ var (
 	fReplayOut = flag.String("verif.replaydir", "", "directory where replay files of violating runs are written")
 	fProfiles  = flag.String("verif.profiles", "", "comma separated profiles (default all)")
 	fCPU       = flag.Float64("verif.cpu", 60, "CPU seconds allowed per run before the watchdog stops the worker")
+	fRefCPU    = flag.Float64("verif.refcpu", 10, "CPU seconds allowed for the reference phases of a run (a call that does not terminate alone is not a C20 matter: the run is discarded)")
 	fSites     = flag.Int("verif.sites", 4096, "number of yield sites")
 	fTrace     = flag.Bool("verif.trace", false, "keep the full scheduler trace in replay output")
+	fDump      = flag.Bool("verif.dump", false, "print the generated specs of the selected runs and exit")
 	fMinimise  = flag.Bool("verif.minimise", false, "minimise the replay file given by -verif.replay")
 )
 
@@ -82,15 +84,19 @@ func setupFontDir(t *testing.T, scratch, repo string) string {
 	return dir
 }
 
-func watchdog(out *os.File, budgetS float64) {
+func watchdog(out *os.File, budgetS, refBudgetS float64) {
 	for {
 		time.Sleep(500 * time.Millisecond)
 		start := float64(progCPU.Load())
 		if start < 0 {
 			continue
 		}
-		if used := cpuMS() - start; used > budgetS*1e3 {
-			ph, _ := progPhase.Load().(string)
+		ph, _ := progPhase.Load().(string)
+		limit := budgetS
+		if ph != "sim" {
+			limit = refBudgetS
+		}
+		if used := cpuMS() - start; used > limit*1e3 {
 			line := fmt.Sprintf(`{"watchdog":true,"run":%d,"phase":%q,"cpu_ms":%.0f}`+"\n", progRun.Load(), ph, used)
 			if out != nil {
 				out.WriteString(line)
@@ -128,6 +134,18 @@ func TestMain(m *testing.M) {
 }
 
 func TestWorker(t *testing.T) {
+	if *fDump {
+		var profiles []string
+		if *fProfiles != "" {
+			profiles = strings.Split(*fProfiles, ",")
+		}
+		for run := *fFrom; run < *fTo; run += *fStride {
+			b, _ := json.Marshal(GenRun(*fSeed, run, *fTier, profiles))
+			fmt.Printf("SPEC %s\n", b)
+		}
+		workerDone = true
+		return
+	}
 	if *fOut == "" && *fReplay == "" {
 		t.Skip("worker: no -verif.out / -verif.replay")
 	}
@@ -159,7 +177,7 @@ func TestWorker(t *testing.T) {
 		defer w.Flush()
 	}
 	progCPU.Store(-1)
-	go watchdog(out, *fCPU)
+	go watchdog(out, *fCPU, *fRefCPU)
 
 	var profiles []string
 	if *fProfiles != "" {
@@ -239,9 +257,7 @@ func TestWorker(t *testing.T) {
 		if (len(rep.Violations) > 0 || rep.Races > 0) && *fReplayOut != "" {
 			writeReplay(t, *fReplayOut, spec, rep, oc)
 		}
-		if len(rep.Violations) > 0 || rep.Races > 0 {
-			w.Flush()
-		}
+		w.Flush() // the watchdog writes to the same file and exits without unwinding
 	}
 }
 
